@@ -232,6 +232,22 @@ def build_battery(content, labels, seed):
         buf.seek(0)
         return fview(read_parquet(buf))
     add("parquet", parq)
+    # the dtype is a description of the logical column: equal to the dtype declared from the fields, with the same
+    # hash, whatever the provenance of the storage; columns of different provenance concatenate into a nested column
+    declared = NestedDtype(gen.struct_type(ty))
+    fresh_ca = gen.lay_fresh(content, random.Random(seed + 2), "null")
+
+    def dtype_identity(s):
+        d = s.dtype
+        return {"eq_declared": bool(d == declared) and bool(declared == d), "hash_eq": hash(d) == hash(declared),
+                "name": d.name == declared.name, "in_set": d in {declared}}
+    add("dtype_identity", dtype_identity)
+
+    def concat_fresh(s):
+        other = pd.Series(NestedExtensionArray(fresh_ca), index=pd.Index(labels), name=s.name)
+        r1, r2 = pd.concat([s, other]), pd.concat([other, s])
+        return {"first": sview(r1), "second": sview(r2), "equals_fresh": bool(s.equals(other)) or None}
+    add("concat_with_fresh", concat_fresh)
     add("base_filter", lambda s: fview(frame(s).query("id >= 1")))
     add("all_columns", lambda s: {k: [str(x) for x in v] for k, v in frame(s).all_columns.items()})
     return ops
